@@ -1435,6 +1435,17 @@ func specAsFatal(e any) *fatalError { p, _ := e.(*fatalError); return p }
 //@   props C12
 //@   ensures result == p.path
 
+//@ func (*PanicError).Position
+//@   props C12
+//@   ensures result.Line == p.position.Line && result.Column == p.position.Column && result.Start == p.position.Start && result.End == p.position.End
+
+// The text of an output error names the writer's error (and returns).
+//@ func outError.Error
+//@   props C13
+//@   opt puremethods Error
+//@   requires err.err != nil
+//@   ensures result == "out error: " + err.err.Error()
+
 // ---------------------------------------------------------------------------
 // renderer.go (C05: no panic; C13: writer discipline)
 // ---------------------------------------------------------------------------
